@@ -4,7 +4,7 @@ from .core import ob
 
 # ----------------------------------------------------------------------------- hfile.c: Hopen
 HO = dict(unit="hopen_u.c", file="hdf/src/hfile.c", entry="h_Hopen", enforce="Hopen", replace=["HIread_version", "HIupdate_version"],
-          objbits=10, cex_unwind=6,
+          objbits=10, cex_unwind=20,  # > number of assigns targets of the replaced contracts (dfcc inclusion-check loop)
           trusted=["two-stream stdio ghost disk (stubs/hopen_stdio.h)",
                    "HAsearch_atom (lookup of the path: finds the shared record iff the harness says so), HAregister_atom/HAremove_atom/"
                    "HAatom_object one-entry registry, HTPstart/HTPinit, HAinit_group, hfile_atexit_create, strdup (units/hopen_u.c)",
@@ -19,3 +19,36 @@ ob("Hopen_first", ["C13"], defines=["H4V_CASE=5"], **HO)
 ob("Hopen_create", ["C13"], defines=["H4V_CASE=6"], **HO)
 ob("Hopen_create_vfail", ["C13"], defines=["H4V_CASE=7"], **HO)
 ob("Hopen_args", ["C13"], defines=["H4V_CASE=8"], **HO)
+
+# ----------------------------------------------------------------------------- special start-access functions
+STTR = ["start-access environment (stubs/stacc_common.h): HAatom_object/HAregister_atom one-entry maps, HIgetspinfo (shared special "
+        "info or none), HIrelease_accrec_node counter, HTPinquire, HPseek/HP_read, inner Hstartaccess/Hseek/Hread/Hendaccess/Hlength "
+        "(CHECK: never asks for write access on a read-only file)", "HEpush/HEreport/HEPclear (stubs/h4v_err.h)"]
+HXA = dict(unit="hx_access_u.c", file="hdf/src/hextelt.c", objbits=10, cex_unwind=16, trusted=STTR)
+ob("HXIstaccess", ["C14", "C13"], entry="h_HXIstaccess", enforce="HXIstaccess", **HXA)
+ob("HXIstaccess_owner", ["C13"], entry="h_HXIstaccess", enforce="HXIstaccess", defines=["H4V_CASE=1"], **HXA)
+ob("HXPstread", ["C14", "C13"], entry="h_HXPstread", enforce="HXPstread", **HXA)
+ob("HXPstwrite", ["C14", "C13"], entry="h_HXPstwrite", enforce="HXPstwrite", **HXA)
+ob("HLIstaccess", ["C14", "C13"], entry="h_HLIstaccess", enforce="HLIstaccess", unit="hl_access_u.c", file="hdf/src/hblocks.c",
+   replace=["HLIgetlink"], mode="bounded", bound="element with ONE block table (HLIgetlink replaced by a trusted contract: NULL, or a "
+   "fresh table with nextref == 0: the loop that follows the chain of tables is not entered -- unwinding assertion), or special info shared",
+   unwind=1, objbits=10, cex_unwind=16, trusted=STTR + ["HLIgetlink trusted contract (units/hl_access_u.c)"])
+ob("HCIstaccess", ["C14", "C13"], entry="h_HCIstaccess", enforce="HCIstaccess", unit="hc_access_u.c", file="hdf/src/hcomp.c",
+   replace=["HCIread_header", "HCIinit_model", "HCIinit_coder"], objbits=10, cex_unwind=16,
+   trusted=STTR + ["HCIread_header/HCIinit_model/HCIinit_coder trusted contracts (units/hc_access_u.c): touch the special-info record only"])
+ob("HMCIstaccess", ["C14", "C13"], entry="h_HMCIstaccess", enforce="HMCIstaccess", unit="hmc_access_u.c", file="hdf/src/hchunks.c",
+   mode="bounded", bound="paths that do not read the chunk table: refusal, HTPinquire failure, special info shared with another access "
+   "record (all loops lie on the other path: unwind=1 with unwinding assertions shows they are not reached)",
+   unwind=1, objbits=10, cex_unwind=16, trusted=STTR)
+
+# ----------------------------------------------------------------------------- hchunks.c: whole-chunk write path (C14)
+from .c14_gates import C14STUBS
+HMG = dict(unit="hmc_gate_u.c", file="hdf/src/hchunks.c", objbits=10, cex_unwind=6,
+           trusted=C14STUBS + ["mcache_get/mcache_put/tbbtdfind/tbbtdins stubs (units/hmc_gate_u.c): CHECK 'not reached on a read-only file'",
+                               "VSwrite on a Vdata attached 'r' and HCcreate on a read-only file return FAIL (proved-dependency: c14_VSwrite, c14_HCcreate)"])
+# unwind=1: every loop of HMCwriteChunk lies BEHIND the gate; the unwinding assertions (always on) prove that no loop is
+# entered on a file without DFACC_WRITE, so the result holds for all inputs
+ob("c14_HMCwriteChunk", "C14", entry="h_HMCwriteChunk", enforce="HMCwriteChunk", unwind=1, **HMG)
+ob("c14_HMCPchunkwrite_gate", "C14", entry="h_HMCPchunkwrite", enforce="HMCPchunkwrite", mode="bounded",
+   bound="one-dimensional chunked element (the code behind the missing gate is reached: its loop over the dimensions is unwound)",
+   unwind=3, defines=["H4V_CASE=1"], **HMG)
